@@ -460,6 +460,25 @@ pub fn run(ctx: &Ctx) -> Report {
         });
         rep.absorb(sub, accs);
     }
+    if ctx.want("totality-literals") {
+        // the numeric literal families of C05 (L1 boundary integers in four radixes up to 2^1030,
+        // L4 long forms with exponents up to +-10^12) under the totality oracle only
+        let mut lits: Vec<String> = crate::props::c05::l1_cases().into_iter().map(|c| c.text).collect();
+        lits.extend(crate::props::c05::l4_cases().into_iter().map(|c| c.text));
+        let opts = [PO::default_(), PO::elisp()];
+        let sub = Sub::new("totality-literals", "C05's literal families L1 (boundary integers in all radixes, with signs and leading zeros, up to 2^1030) and L4 (long digit runs with every exponent in +-{0..30, 300..330, 400, 4000, 2^31-1, 2^31, 10^12}), bare and inside a list, through every entry point x {default, elisp}: no panic (arithmetic overflow checks are on)", &format!("{} literals x 2 positions x 2 option sets", lits.len()));
+        let n = lits.len() as u64;
+        let accs = par_ranks(n * 4, |rank, acc| {
+            let l = &lits[(rank / 4) as usize];
+            let text = if rank % 2 == 0 { l.clone().into_bytes() } else { format!("(a {} . {})", l, l).into_bytes() };
+            if rank % 257 == 0 {
+                acc.outcome(&text.len().min(64));
+            }
+            acc.sample(rank, || trunc(&show_bytes(&text), 60));
+            check_total(acc, "totality-literals", rank, &text, &opts[((rank / 2) % 2) as usize], true);
+        });
+        rep.absorb(sub, accs);
+    }
     if ctx.want("depth-acceptance") {
         let mut patterns: Vec<Vec<usize>> = Vec::new();
         let nn = NEST.len();
